@@ -47,14 +47,20 @@ theorem alloc_nospace_complete (ft : FatType) (f : Array Nat) (total : Nat) (ht 
     obtain ⟨a, b, c'⟩ := allocFindV_some _ _ _ _ hh hf
     exact absurd c' (h c a b)
 
-/-- F9 in the pure setting: the retry arm `Err(_) if start_cluster > 2` catches ANY error. Here the table is too
-    short for `total = 5` (entries 4.. are past the end): with no hint the scan reports the read error (`eof`), with
-    hint 4 the same read error is swallowed and the call answers `NotEnoughSpace`. `TableOk` excludes this here;
-    with a device fault the same masking is finding F9 (C09). -/
-theorem alloc_error_masked_counterexample :
+/-- F9 regression (repaired in commit 42d2b2d: the retry arm is `Err(Error::NotEnoughSpace) if start_cluster > 2`).
+    The table is too short for `total = 5` (entries 4.. are past the end). Before the repair the hinted call swallowed
+    the read error of the first scan and answered `NotEnoughSpace`; now both calls report the read error. -/
+theorem alloc_error_propagated_regression :
     (allocCluster #[0xF8, 0xFF, 0xFF, 0xFF, 0xFF, 0xFF, 0xFF, 0xFF] .fat16 none none 5).out = .error .eof ∧
-    (allocCluster #[0xF8, 0xFF, 0xFF, 0xFF, 0xFF, 0xFF, 0xFF, 0xFF] .fat16 none (some 4) 5).out = .error .noSpace :=
+    (allocCluster #[0xF8, 0xFF, 0xFF, 0xFF, 0xFF, 0xFF, 0xFF, 0xFF] .fat16 none (some 4) 5).out = .error .eof :=
   ⟨rfl, rfl⟩
+
+/-- in general: an error of the first scan other than `NotEnoughSpace` is the result of `allocFind` -/
+theorem alloc_first_scan_error_propagates (ft : FatType) (f : Array Nat) (start endc : Nat) (e : Err)
+    (h : findFree ft f start endc = .error e) (he : e ≠ .noSpace) : allocFind ft f start endc = .error e := by
+  unfold allocFind
+  rw [h]; simp only
+  rw [if_neg (fun hh => he hh.1)]
 
 /-- a full FAT16 table: 3 data clusters, all taken -/
 def exFull : Array Nat := #[0xF8, 0xFF, 0xFF, 0xFF, 0x03, 0x00, 0x04, 0x00, 0xFF, 0xFF]
